@@ -86,6 +86,40 @@ func (d *Driver) Settle(timeout time.Duration) (ui.VerifSnap, error) {
 	}
 }
 
+// SettleLoads is Settle for histories with a slow media hook: a running hook (mode "opening") does not count as busy,
+// so that keys arrive while it is still running.
+func (d *Driver) SettleLoads(timeout time.Duration) (ui.VerifSnap, error) {
+	deadline := time.Now().Add(timeout)
+	for {
+		snap := d.S.VerifSnapshot()
+		busy := snap.Mode == ui.VerifLoading
+		for _, p := range snap.Pages {
+			if p.LoadingUp || p.LoadingDown {
+				busy = true
+			}
+		}
+		if !busy {
+			return snap, nil
+		}
+		if time.Now().After(deadline) {
+			return snap, fmt.Errorf("UI did not settle within %v (mode %d)", timeout, snap.Mode)
+		}
+		time.Sleep(300 * time.Microsecond)
+	}
+}
+
+// KeyNoHookWait is Key with SettleLoads.
+func (d *Driver) KeyNoHookWait(b byte, timeout time.Duration) (ui.VerifSnap, error) {
+	done := make(chan struct{})
+	go func() { d.S.Update(b); close(done) }()
+	select {
+	case <-done:
+	case <-time.After(timeout):
+		return ui.VerifSnap{}, fmt.Errorf("Update(%q) did not return within %v: the interface is wedged", b, timeout)
+	}
+	return d.SettleLoads(timeout)
+}
+
 // Key sends one key and waits for the UI to settle. An Update call that does not return is reported.
 func (d *Driver) Key(b byte, timeout time.Duration) (ui.VerifSnap, error) {
 	done := make(chan struct{})
